@@ -556,6 +556,20 @@ def case_transform_api(rng, ctx):
     Rs = np.stack([G.quat_rotation(rng) for _ in range(m)]).astype(pdt)
     ct = (rng.normal(size=(m, 3)) * scale * 10.0 ** rng.uniform(-1, 2)).astype(pdt)
     tt = (rng.normal(size=(m, 3)) * scale * 10.0 ** rng.uniform(-1, 2)).astype(pdt)
+    if rng.random() < 0.2:
+        # an axis-aligned rotation / symmetry operation written with integer entries (as in the class docstring), next to
+        # non-integral translations
+        mats = []
+        for _ in range(m):
+            while True:
+                P = np.zeros((3, 3), dtype=np.int64)
+                for r_, c_ in enumerate(rng.permutation(3)):
+                    P[r_, int(c_)] = int(rng.choice([-1, 1]))
+                if round(float(np.linalg.det(P))) == 1:
+                    break
+            mats.append(P)
+        Rs = np.stack(mats).astype(np.int64 if rng.random() < 0.5 else np.int32)
+        ctx.op("api_integer_rotation")
     squeeze = m == 1 and rng.random() < 0.5
     tr = AffineTransformation(ct[0] if squeeze else ct, Rs[0] if squeeze else Rs, tt[0] if squeeze else tt)
     ctx.oracle("transformation_shapes")
